@@ -15,6 +15,7 @@
  Rx export keys   : each loaded parameter is exported under the key its loader reads it from.
  R7 design inputs : budget formulas and edge weights of the auto-design (shared with C09-R1, C08-R2).
  Rz sentinel      : fields defaulted when None are None when absent from the input (loader .get without another default).
+ R8 export guards : an optional export entry is conditioned only on the value it exports.
 """
 import ast
 
@@ -330,8 +331,48 @@ def rs_sentinel(ctx):
     ctx.need('Rz.sentinel', 2)
 
 
+def r8_export_guards(ctx):
+    """R8: an optional entry of an element's export depends only on the value it exports: every `if` around a store
+    `<dict>['<key>'] = <value>` in a to_json method tests that value (or a flag named after the key), never an unrelated field -
+    otherwise the entry disappears from the export for some configurations and the reloaded design differs"""
+    repo = ctx.repo
+    n = 0
+    m = repo.module('gnpy.core.elements')
+    for cls in m.classes.values():
+        tj = cls.getters.get('to_json') or cls.methods.get('to_json')
+        if tj is None:
+            continue
+        for st in [x for x in ast.walk(tj.node) if isinstance(x, ast.Assign) and isinstance(x.targets[0], ast.Subscript) and
+                   isinstance(x.targets[0].slice, ast.Constant) and isinstance(x.targets[0].slice.value, str)]:
+            keyname = st.targets[0].slice.value
+            val_attrs = {a.attr for a in ast.walk(st.value) if isinstance(a, ast.Attribute)} | \
+                {a.id for a in ast.walk(st.value) if isinstance(a, ast.Name)}
+            guards = []
+            cur = getattr(st, '_parent', None)
+            child = st
+            while cur is not None and cur is not tj.node:
+                if isinstance(cur, ast.If):
+                    guards.append(cur)
+                child, cur = cur, getattr(cur, '_parent', None)
+            if not guards:
+                continue
+            n += 1
+            stems = {keyname, keyname.replace('-', '_')}
+            bad = []
+            for g in guards:
+                names = {a.attr for a in ast.walk(g.test) if isinstance(a, ast.Attribute)} | {a.id for a in ast.walk(g.test) if isinstance(a, ast.Name)}
+                names -= {'self', 'params', 'len', 'isinstance', 'ndarray', 'float', 'int', 'size', 'operational'}
+                related = any(nm in val_attrs or any(stem in nm or nm in stem for stem in stems) for nm in names)
+                if names and not related:
+                    bad.append(ast.unparse(g.test)[:50])
+            ctx.check('R8.export-guards', f'{site(tj, st)} {cls.name}[{keyname}]', not bad, f'{tj.qual}|export-guard|{keyname}',
+                      f"the export of '{keyname}' also depends on {bad}, which does not concern that value: for some configurations the entry "
+                      'is missing from the export and the reloaded network is designed with a default instead')
+    ctx.need('R8.export-guards', 4)
+
+
 from ..presence import rule_for as _presence_rule
 
 RULES_PRESENCE = ('Rp.presence', _presence_rule('C17', 'a value of exactly 0 would be exported as missing and re-designed on reload'))
 
-RULES = [('R5.handoff', r5_handoff), ('R1.bracket', r1_bracket), ('R2.completeness', r2_completeness), ('R3.fix-point', r3_fixpoints), ('R4.keys', r4_keys), RULES_PRESENCE, ('R6.padding-cache', r6_padding_cache), ('Rx.export-keys', rx_export_keys), ('R7.design-inputs', r7_design_inputs), ('Rz.sentinel', rs_sentinel)]
+RULES = [('R5.handoff', r5_handoff), ('R1.bracket', r1_bracket), ('R2.completeness', r2_completeness), ('R3.fix-point', r3_fixpoints), ('R4.keys', r4_keys), RULES_PRESENCE, ('R6.padding-cache', r6_padding_cache), ('Rx.export-keys', rx_export_keys), ('R7.design-inputs', r7_design_inputs), ('Rz.sentinel', rs_sentinel), ('R8.export-guards', r8_export_guards)]
